@@ -525,10 +525,23 @@ func verifiedMemoRule(P *Program, R *Report) {
 					}
 				}
 			}
-			all := map[ssa.Value]bool{}
+			// (through helpers of the package: the junction test may live in one)
+			var rootList []ssa.Value
 			for r := range roots {
-				for d := range deps(P, r) {
-					all[d] = true
+				rootList = append(rootList, r)
+			}
+			all := depsIP(P, rootList, 2)
+			for d := range all {
+				if c, ok := d.(*ssa.Call); ok {
+					if g := c.Call.StaticCallee(); g != nil && inModuleFn(g) && g.Blocks != nil && g != fn {
+						for _, b := range g.Blocks {
+							if iff, isIf := b.Instrs[len(b.Instrs)-1].(*ssa.If); isIf {
+								for x := range deps(P, iff.Cond) {
+									all[x] = true
+								}
+							}
+						}
+					}
 				}
 			}
 			for d := range all {
